@@ -4,13 +4,17 @@ tier), revert; an exit code other than 0 is an alarm on code where the propertie
 import glob, json, os, subprocess, sys, shutil, tempfile
 VERIF = os.path.dirname(os.path.dirname(os.path.abspath(__file__)))
 only = sys.argv[1:]
+rows_out = None
+if only[:1] == ["--rows"]:
+    rows_out = only[1]
+    only = only[2:]
 pids = ["C%02d" % i for i in range(1, 21)]
 save = tempfile.mkdtemp(prefix="evid.")
 os.environ["VERIF_EVIDENCE"] = save          # evidence / replays of runs on a changed tree go to a scratch directory
 rows = []
 for d in sorted(glob.glob(VERIF + "/seeded/harmless/*")):
     name = os.path.basename(d)
-    if only and not any(name.startswith(o) for o in only):
+    if only and not any(name == o or (len(o) == 2 and name.startswith(o)) for o in only):
         continue
     r = subprocess.run(["git", "-C", "/repo", "apply", d + "/patch.diff"])
     if r.returncode != 0:
@@ -41,7 +45,10 @@ for d in sorted(glob.glob(VERIF + "/seeded/harmless/*")):
     rows.append((name, "quiet" if not alarms else "ALARM", " ; ".join(alarms)))
     print(rows[-1]); sys.stdout.flush()
 shutil.rmtree(save, ignore_errors=True)
-if not only:
+if rows_out:
+    with open(rows_out, "w") as fh:
+        json.dump(rows, fh)
+if not only and not rows_out:
     with open(VERIF + "/seeded/HARMLESS.md", "w") as fh:
         fh.write("# Behaviour-preserving changes vs. all twenty checks (quick tier)\n\n| change | outcome | alarms |\n|---|---|---|\n")
         for r in rows:
